@@ -327,6 +327,45 @@ func c11InProcess(c *fw.Ctx) {
 				c.Class("in-process:" + ch.Format + pk)
 			}
 		}
+		// a remote write that arrives WHILE the application's callbacks for a local update of the same characteristic
+		// are running (the application's handler is slow; a controller writes meanwhile): without pw it changes nothing
+		{
+			ch := sub.Build()
+			if !canW(ch) && canR(ch) {
+				c.Eval(1)
+				cas := c11Case{Subject: sub.Name, Path: "in-process", What: "remote-write-during-local-callbacks"}
+				remote := 0
+				var attempted []interface{}
+				ch.OnValueUpdateFromConn(func(net.Conn, *characteristic.Characteristic, interface{}, interface{}) { remote++ })
+				ch.OnValueUpdate(func(_ *characteristic.Characteristic, nv, _ interface{}) {
+					for _, v := range vals {
+						if len(v.Label) <= 3 || v.Label == "true" || v.Label == "str:abc" {
+							attempted = append(attempted, v.V)
+							guard(func() { ch.UpdateValueFromConnection(v.V, nullConn{}) })
+						}
+					}
+				})
+				var local interface{}
+				for _, v := range vals { // a local update that changes the value, so that the callbacks run
+					before := ch.Value
+					guard(func() { ch.UpdateValue(v.V) })
+					if !reflect.DeepEqual(ch.Value, before) {
+						local = ch.Value
+						break
+					}
+				}
+				if local != nil {
+					// one more local update gives deferred work a chance to run
+					guard(func() { ch.UpdateValue(local) })
+					if !reflect.DeepEqual(ch.Value, local) {
+						c.Report("write-without-pw-changed-value/during-callbacks/"+ch.Format, fmt.Sprintf("%s %s: remote writes that arrived while the callbacks of a local update were running changed the value from %v to %v", sub.Name, permKey(ch), local, ch.Value), cas)
+					}
+					if remote > 0 {
+						c.Report("write-without-pw-invoked-callback/during-callbacks/"+ch.Format, fmt.Sprintf("%s %s: remote writes that arrived while the callbacks of a local update were running invoked the remote-update callback %d times", sub.Name, permKey(ch), remote), cas)
+					}
+				}
+			}
+		}
 	}
 }
 
@@ -705,7 +744,7 @@ func init() {
 	fw.Register(&fw.Check{
 		ID:    "C11",
 		Level: "exploration",
-		Rule:  "every characteristic constructor found in /repo with its own permissions plus the five generic constructors under all 8 subsets of {pr,pw,ev}. In-process: every subject × ≈40 JSON-like values through UpdateValueFromConnection, alone and after each of five first events that change nothing (local update with the same value, ignored local updates, a remote read with and without a read callback, a remote write of the current value), (and UpdateValue for write-only ones): without pw value and all callback counters unchanged; without pr no value stored or encoded. HTTP (real transport, verified controller): per characteristic a changing valid PUT, a GET, ev=true, value+ev in one entry, then a local and a remote change followed by a barrier request: without pw nothing changes and no callback fires (also for 11 other JSON spellings of a value: numbers for booleans, strings for numbers, …); without pr no value is stored or revealed (also while the application has a read callback installed, and for library characteristics whose permissions the application narrowed to write-only after they had a value: GET /characteristics is refused by permission, not by absence of a value); without ev the subscription entry is answered with a non-zero status (also for non-boolean spellings of the flag) and no EVENT follows; an EVENT for an observable characteristic without pr carries no value. distinct_nontrivial = distinct (path, format, permission set) classes The permissions a subject is DECLARED to have are taken from gen/metadata.json (by type id), not from the object; subjects whose permission sets come from the exported helpers (PermsAll/Read/ReadOnly/WriteOnly) are built while other code extends and edits the helpers' results; a rejected subscription inside requests with entries that succeed (before / after it) still carries its status. Plus, in a subprocess built with a scheduling point before EVERY statement of hc's packages (textual insertion through go build -overlay): every interleaving with at most 1 (thorough 2) preemptions of pairs of operations on disjoint objects — and, where the property is about served requests, of pairs of handlers on two verified connections of one accessory touching different characteristics — each side must observe exactly what it observes when the two run one after the other (module-level mutable state is what makes them differ).",
+		Rule:  "every characteristic constructor found in /repo with its own permissions plus the five generic constructors under all 8 subsets of {pr,pw,ev}. In-process: every subject × ≈40 JSON-like values through UpdateValueFromConnection, alone and after each of five first events that change nothing (local update with the same value, ignored local updates, a remote read with and without a read callback, a remote write of the current value), (and UpdateValue for write-only ones): without pw value and all callback counters unchanged — also for remote writes that arrive while the application's callbacks of a local update are running; without pr no value stored or encoded. HTTP (real transport, verified controller): per characteristic a changing valid PUT, a GET, ev=true, value+ev in one entry, then a local and a remote change followed by a barrier request: without pw nothing changes and no callback fires (also for 11 other JSON spellings of a value: numbers for booleans, strings for numbers, …); without pr no value is stored or revealed (also while the application has a read callback installed, and for library characteristics whose permissions the application narrowed to write-only after they had a value: GET /characteristics is refused by permission, not by absence of a value); without ev the subscription entry is answered with a non-zero status (also for non-boolean spellings of the flag) and no EVENT follows; an EVENT for an observable characteristic without pr carries no value. distinct_nontrivial = distinct (path, format, permission set) classes The permissions a subject is DECLARED to have are taken from gen/metadata.json (by type id), not from the object; subjects whose permission sets come from the exported helpers (PermsAll/Read/ReadOnly/WriteOnly) are built while other code extends and edits the helpers' results; a rejected subscription inside requests with entries that succeed (before / after it) still carries its status. Plus, in a subprocess built with a scheduling point before EVERY statement of hc's packages (textual insertion through go build -overlay): every interleaving with at most 1 (thorough 2) preemptions of pairs of operations on disjoint objects — and, where the property is about served requests, of pairs of handlers on two verified connections of one accessory touching different characteristics — each side must observe exactly what it observes when the two run one after the other (module-level mutable state is what makes them differ).",
 		Run:   c11Run,
 		Replay: func(c *fw.Ctx, raw json.RawMessage) {
 			var cas c11Case
